@@ -73,6 +73,10 @@ def replay(rep, path):
         argvals = [[rng.randint(1, 7) for _ in range(dz["nargs"])] for _ in vals]
         lines = condgen.run_simul(dz, vals, argvals)
     except Exception as ex:  # noqa: BLE001
+        if condgen.simul_usage_rule(dz, ex):
+            # the current tree refuses the design by the documented usage rule (as `run` accepts it)
+            rep.add("designs_refused_by_usage_rule", 1)
+            return
         rep.violation({"component": "simultaneous", "cfg": d["cfg"], "clauses": ["ElaborationRaised"], "what": str(ex)[:300], "design": dz})
         return
     res, acc, rej, dev = judge.judge("SimultaneousTrace", [{"design": dz, "cycles": lines}])
